@@ -11,10 +11,11 @@ header shows its original type again."
 Model: `NrfModel/Net/Structs.lean`, `NrfModel/Net/Frag.lean`; spec: `NrfModel/Spec/Wire.lean`,
 `NrfModel/Spec/Reassembly.lean` (`tmrhReassemble`).
 
-Not covered here (needs the node model): D12 — while `_write()` waits for a NETWORK_ACK of a routed
-message, `_net_update()` unpacks received frames into `frame_buf`, which `_pre_write` has aliased
-to the *caller's* frame, so the caller's header is overwritten (type 193).  `C11_type_restored`
-is about `write()` without that wait.
+Not covered by a theorem (tie-only): D12 — before its fix, while `_write()` waited for a NETWORK_ACK of
+a routed message, `_net_update()` unpacked received frames into `frame_buf`, which `_pre_write` had
+aliased to the *caller's* frame, so the caller's header was overwritten (type 193).  The repaired code
+works on a private copy; `C11_type_restored` is a tautology of the pure model `netWrite` (it returns
+`header := h` by construction) and says nothing about that wait — the correspondence run does.
 -/
 import NrfProofs.FragSpec
 
@@ -223,11 +224,15 @@ example : (writeToPipe { fromNode := 0, toNode := 1, frameId := 7, msgType := .i
     some [[0, 0, 1, 0, 7, 0, 148, 3], [0, 0, 1, 0, 7, 0, 149, 2], [0, 0, 1, 0, 7, 0, 150, 200]] := by
   decide
 
-/-- after `write()` (any node, any configuration, any header and message for which it returns) the
-    caller's header shows the type it had before — and every other field except `from_node`, which
-    `write()` sets to the node's address: since the fix "write() of a routed message let the
-    awaited NETWORK_ACK overwrite the caller's frame" the node works on a private copy, so neither
-    the fragment loop nor frames received while waiting for a NETWORK_ACK reach the caller's frame -/
+/-- MODEL TAUTOLOGY (`⟨rfl, rfl⟩` in every branch), not evidence for the clause: `netWrite` is a pure
+    function that literally returns `header := { h with fromNode := n.addr }`, so "after `write()` the
+    caller's header shows the type it had before, and every other field except `from_node`" holds by
+    the shape of the model.  That neither the fragment loop nor frames received while waiting for a
+    NETWORK_ACK reach the caller's frame (the fix "write() of a routed message let the awaited
+    NETWORK_ACK overwrite the caller's frame": the node now works on a private copy) is a MODELLING
+    DECISION taken after that fix, not something this theorem proves; the clause is decided by the
+    correspondence run (tie-only), which compares the real caller's header object after `write()`,
+    including routed messages that wait for a NETWORK_ACK. -/
 theorem C11_type_restored (n : NodeAddr) (maxLen : Nat) (fe : Bool) (h : Header) (msg : Bytes)
     (w : WriteOut) (hw : netWrite n maxLen fe h msg = .ok w) :
     w.header.msgType = h.msgType ∧ w.header = { h with fromNode := n.addr } := by
